@@ -1075,6 +1075,7 @@ package iavl
 //@   requires tree != nil && tree.ImmutableTree != nil && tree.ndb != nil && tree.ImmutableTree.version < 9223372036854775807
 //@   callsite Node).hashWithCount [hash-of-the-working-root-at-the-working-version] arg0 == tree.ImmutableTree.root && arg1 == result("MutableTree).WorkingVersion@1")
 //@   ensures [always-computed-from-the-working-tree] calls("Node).hashWithCount") == 1 && h == result("Node).hashWithCount@1") && calls("ImmutableTree).Hash") == 0
+//@   ensures [for-the-working-version] calls("MutableTree).WorkingVersion") == 1
 //@   modifies *
 //@ func (*nodeDB).SetFastStorageVersionToBatch(ndb, latestVersion) (err)
 //@   summary
